@@ -42,7 +42,7 @@ type Opts struct {
 	Country string // alpha-2 of issuer.Countries ("" = DE)
 	Layout  string // TD1/TD2/TD3 ("" = TD3)
 
-	Access     string     // "BAC", "PACE+BAC", "PACE", "PACE-CAM"
+	Access     string     // "BAC", "PACE+BAC", "PACE", "PACE-CAM", "BAC+PACE-UNSUPPORTED"
 	PaceID     int        // 8..18 (0 = 12)
 	PaceCipher mac.Cipher // "" = AES-128
 	CAN        string     // "" = 123456
@@ -86,6 +86,12 @@ type Opts struct {
 	DowngradePos     int  // where the foreign entry goes: 0 first, 1 last, 2 after the first genuine entry
 	DowngradeKind    int  // 0 weaker PACE suite on another parameter id, 1 unknown OID, 2 the genuine suite on another parameter id
 	NoCardSecurity   bool
+
+	// CAMKeys arranges the Chip Authentication keys of EF.CardSecurity on PACE-CAM chips (all genuine):
+	// 0 the mapping key alone; 1 a key on another standardised curve first; 2 a generic key on the same
+	// curve first (the mapping key is told apart by its key id) and another curve's key last;
+	// 3 the mapping key without a key id between keys of two other curves.
+	CAMKeys int
 }
 
 // Persona is a personalised document.
@@ -250,8 +256,21 @@ func Build(o Opts) (*Persona, error) {
 		cfg.BAC = o.Access == "PACE+BAC"
 		p.ExpectPACE = true
 		p.ExpectCAM = o.Access == "PACE-CAM"
-	default:
-		return nil, fmt.Errorf("unknown access arrangement %q", o.Access)
+	case "BAC+PACE-UNSUPPORTED":
+		// EF.CardAccess advertises PACE only in forms the library does not implement (integrated
+		// mapping, DH, an OID of the id-PACE arc nobody knows); the chip also supports BAC, which is
+		// what a reader holding the MRZ has to fall back to
+		cfg.BAC = true
+		p.ExpectBAC = true
+		unsupported := [][]string{
+			{"0.4.0.127.0.7.2.2.4.4.2"},                            // ECDH-IM-AES-128
+			{"0.4.0.127.0.7.2.2.4.1.2", "0.4.0.127.0.7.2.2.4.3.1"}, // DH-GM-AES-128, DH-IM-3DES
+			{"0.4.0.127.0.7.2.2.4.9.2"},                            // unknown mapping
+			{"0.4.0.127.0.7.2.2.4.4.4", "0.4.0.127.0.7.2.2.4.2.9"}, // ECDH-IM-AES-256, unknown cipher
+		}[int(o.Seed[0])%4]
+		for _, u := range unsupported {
+			caInfos = append(caInfos, lds.PACEInfo(u, 2, pid))
+		}
 	}
 	dg14Infos = append(dg14Infos, caInfos...)
 
@@ -430,8 +449,44 @@ func Build(o Opts) (*Persona, error) {
 		p.Files["CardAccess"] = mf[chipsim.FidCardAccess]
 	}
 	if camKey != nil && !o.NoCardSecurity {
-		pubKeyInfo := lds.ChipAuthPubKeyInfo(lds.OidPkECDH, lds.SPKIStdDomain(o.PaceID, camKey.Curve.Encode(camKey.Curve.ScalarBaseMult(camKey.Priv))), pid)
-		secInfos := lds.SecurityInfos(append(append([][]byte{}, caInfos...), pubKeyInfo)...)
+		camPoint := camKey.Curve.Encode(camKey.Curve.ScalarBaseMult(camKey.Priv))
+		pubKeyInfo := lds.ChipAuthPubKeyInfo(lds.OidPkECDH, lds.SPKIStdDomain(o.PaceID, camPoint), pid)
+		keyInfos := [][]byte{pubKeyInfo}
+		if o.CAMKeys%4 != 0 {
+			extra := func(label string, id int) []byte {
+				ocv := ecc.ByPaceID(id)
+				k := ocv.ScalarFromBytes(detrand.New(append([]byte("camextra-"+label), o.Seed...)).Bytes(ocv.ByteLen + 8))
+				if k.Sign() == 0 {
+					k = big.NewInt(11)
+				}
+				return ocv.Encode(ocv.ScalarBaseMult(k))
+			}
+			other, third := 12, 16
+			if o.PaceID == 12 {
+				other = 10
+			}
+			if o.PaceID == 16 {
+				third = 15
+			}
+			otherKey := func(id int, withID bool) []byte {
+				var kid *big.Int
+				if withID {
+					kid = big.NewInt(int64(id))
+				}
+				return lds.ChipAuthPubKeyInfo(lds.OidPkECDH, lds.SPKIStdDomain(id, extra(fmt.Sprint(id), id)), kid)
+			}
+			switch o.CAMKeys % 4 {
+			case 1:
+				keyInfos = [][]byte{otherKey(other, true), pubKeyInfo}
+			case 2:
+				generic := lds.ChipAuthPubKeyInfo(lds.OidPkECDH, lds.SPKIStdDomain(o.PaceID, extra("generic", o.PaceID)), big.NewInt(int64(o.PaceID+40)))
+				keyInfos = [][]byte{generic, pubKeyInfo, otherKey(other, false)}
+			case 3:
+				noID := lds.ChipAuthPubKeyInfo(lds.OidPkECDH, lds.SPKIStdDomain(o.PaceID, camPoint), nil)
+				keyInfos = [][]byte{otherKey(third, true), noID, otherKey(other, true)}
+			}
+		}
+		secInfos := lds.SecurityInfos(append(append([][]byte{}, caInfos...), keyInfos...)...)
 		cs, err := pki.SignCardSecurity(secInfos, issuer.CMSOptions{})
 		if err != nil {
 			return nil, fmt.Errorf("CardSecurity: %w", err)
